@@ -70,7 +70,9 @@ def run_program(case):
         if op[0] == 'fill':
             _, _, _, qty, price, comm = op
             oid = ('o%d' % (i // 3)) if case.get('repeat_order_ids') else 'o%d' % i
-            port.transact_asset(q.Transaction(a, qty, t, price, oid, commission=comm))
+            # (the commission is the documented sixth argument: by keyword, or by position)
+            port.transact_asset(q.Transaction(a, qty, t, price, oid, commission=comm) if i % 2 else
+                                q.Transaction(a, qty, t, price, oid, comm))
             cost = F(price) * qty + F(comm)
             cash -= cost
             hist.append(('asset_transaction', -cost, cash))
